@@ -45,7 +45,7 @@ def nontrivial_C01(sc, obs):
 
 
 # ------------------------------------------------------------------ C02
-K_C02 = dict(cbs=0.6, cb_max=3, conv=0.35, listeners=(0, 3), multi_prov=0.3, self_loop=0.3, internal=0.5,
+K_C02 = dict(yields=0.3, cbs=0.6, cb_max=3, conv=0.35, listeners=(0, 3), multi_prov=0.3, self_loop=0.3, internal=0.5,
              multi_event=0.5, p_async=0.3, sends=0.03, guards=0.4, validators=0.3, share_groups=0.3,
              ops=(2, 10))
 
@@ -178,7 +178,7 @@ def nontrivial_C14(sc, obs):
 
 SPECS = {
     "C01": dict(knobs=K_C01, nontrivial=nontrivial_C01, n=(2200, 40000)),
-    "C02": dict(knobs=K_C02, nontrivial=nontrivial_C02, n=(1800, 30000)),
+    "C02": dict(knobs=K_C02, nontrivial=nontrivial_C02, n=(1800, 30000), late=0.3, overlap=True),
     "C03": dict(knobs=K_C03, nontrivial=nontrivial_C03, n=(1800, 20000), extra=extra_C03),
     "C04": dict(knobs=K_C04, nontrivial=nontrivial_C04, n=(260, 5000), faults=True),
     "C11": dict(knobs=K_C11, nontrivial=nontrivial_C11, n=(2000, 30000)),
@@ -199,6 +199,10 @@ def install(prop, g):
             scs += ex
             parts.append((what, len(ex)))
         base = [enggen.gen_scenario(rng, spec["knobs"]) for _ in range(n)]
+        if spec.get("late"):
+            # some listeners are attached later with add_listener, at random points of the history
+            from . import c12
+            base = [c12.add_late(b_, rng) if (rng.random() < spec["late"] and not b_.get("async")) else b_ for b_ in base]
         if spec.get("faults"):
             parts.append(("fault-free base scenarios (seeded random machines with nested sends)", len(base)))
             nvar = 0
@@ -233,8 +237,15 @@ def install(prop, g):
                 "operation_outcome_histogram": dict(oh),
                 "out_of_scope": sum(1 for v in verdicts if v == 9)}
 
+    def coq_case_checked(sc, obs):
+        # a callback that began while a callback of another group was still running (a coroutine that
+        # really suspends): the groups are not sequential - reported through an impossible observation
+        if spec.get("overlap") and obs and obs[0].get("overlap"):
+            return eng.coq_case(sc, [])
+        return eng.coq_case(sc, obs)
+
     g.update(PROP=prop, RUN_MODULE=RUN_MODULE, VERDICT_FN=f"verdict_{prop}", CHUNK=CHUNK,
-             run_impl=run_impl, coq_case=coq_case, render_source=render_source, DRIVER_ERR=DRIVER_ERR,
+             run_impl=run_impl, coq_case=coq_case_checked, render_source=render_source, DRIVER_ERR=DRIVER_ERR,
              generate=generate, nontrivial=spec["nontrivial"], extra_coverage=extra_coverage,
              CLASSIFIERS={}, explain=explain_for(prop))
 
